@@ -311,6 +311,9 @@ def subtractions(prog, pv, pvn, body, depth=0):
                 continue
             pol, _ = bool_polarity(cb, pvn, lambda c2: c2.method == "contains")
             out[bi] = {"A": pv.of_operand(body, t.args[0]), "B": pv.of_operand(cb, cont[0][1].args[0]), "pol": pol, "line": t.line}
+        elif c.trait == "std::ops::Sub" and "HpoGroup" in (c.def_args or "") and len(t.args) == 2:
+            # `a - b` on groups (a crate impl of the difference operator; what that impl does is C12's business)
+            out[bi] = {"A": pv.of_operand(body, t.args[0]), "B": pv.of_operand(body, t.args[1]), "pol": -1, "line": t.line, "helper": "HpoGroup - HpoGroup"}
         else:
             tg = prog.bodies.get(c.res) if c.res else None
             if tg is not None and depth == 0 and tg.kind in ("Fn", "AssocFn") and tg.file == body.file and len(t.args) == 2 and tg.id != body.id:
